@@ -243,7 +243,7 @@ class Check:
 
     def match_known(self, clause, text):
         for k in self.known:
-            if k["clause"] == clause and re.search(k["match"], text):
+            if re.fullmatch(k["clause"], clause) and re.search(k["match"], text):
                 return k
         return None
 
